@@ -196,35 +196,31 @@ Proof.
 Qed.
 
 (* ---------------------------------------------------------------- ValidTopicFilter(true, s) as the decoder uses it *)
-Lemma filter_loop_must : forall fuel prev p, valid_utf8_loop fuel p = Ok true -> has_fffd p = false ->
+Lemma filter_loop_must : forall fuel prev p, valid_utf8_loop fuel p = Ok true ->
   valid_topic_filter_loop fuel true prev p = valid_topic_filter_loop fuel false prev p.
 Proof.
-  induction fuel; intros prev p H Hf; [reflexivity|]. cbn [valid_utf8_loop valid_topic_filter_loop] in *.
+  induction fuel; intros prev p H; [reflexivity|]. cbn [valid_utf8_loop valid_topic_filter_loop] in *.
   destruct p as [|p0 t] eqn:Ep; [reflexivity|]. rewrite <- Ep in *.
   assert (Hp : p <> []) by (subst; discriminate).
   destruct (decode_rune_size p Hp) as [H1 _].
-  pose proof (rune_error_size1 p Hf) as Hre.
   destruct (decode_rune p) as [ru size]. cbn [fst snd] in *.
   destruct (ru <=? 31); [discriminate|]. destruct ((127 <=? ru) && (ru <=? 159)); [discriminate|].
-  destruct (N.eqb_spec ru RUNE_ERROR) as [Er|Er].
-  { rewrite (Hre Er Hp) in H. cbn in H. discriminate. }
-  cbn [andb] in *. destruct (negb (valid_rune ru)); [discriminate|].
+  cbn [andb] in *. destruct ((ru =? RUNE_ERROR) && (size <=? 1)); [discriminate|].
+  destruct (negb (valid_rune ru)); [discriminate|].
   destruct ((p0 =? HASH) && negb (is_empty t)); [reflexivity|].
   match goal with |- bind ?x _ = bind ?x _ => destruct x as [ok| | |]; cbn [bind]; try reflexivity end.
   destruct (negb ok); [reflexivity|].
   replace (size =? 0) with false in H by lia.
   destruct (slice_from size p) as [p'| | |] eqn:Es; cbn [bind] in *; try reflexivity.
-  apply IHfuel; [assumption|]. unfold slice_from in Es. destruct (shorter p size); [discriminate|].
-  inversion Es. now apply has_fffd_dropN.
+  now apply IHfuel.
 Qed.
 
-(* on every string the decoder passes to it (ValidUTF8 accepted it), U+FFFD apart,
+(* on every string the decoder passes to it (ValidUTF8 accepted it),
    ValidTopicFilter(true, s) gives the verdict of the specification *)
 Theorem filter_decoder_partial : forall s,
-  valid_utf8_impl s = Ok true -> kf_t_fffd s = false ->
-  valid_topic_filter_impl true s = Ok (spec_topic_filter s).
+  valid_utf8_impl s = Ok true -> valid_topic_filter_impl true s = Ok (spec_topic_filter s).
 Proof.
-  intros s Hu Hf. unfold spec_topic_filter. rewrite <- (filter_bytes_exact' s Hu).
+  intros s Hu. unfold spec_topic_filter. rewrite <- (filter_bytes_exact' s Hu).
   unfold valid_topic_filter_impl. destruct s as [|c t] eqn:Es; [reflexivity|]. rewrite <- Es in *.
   apply filter_loop_must; assumption.
 Qed.
@@ -286,18 +282,17 @@ Proof.
 Qed.
 
 Lemma share_loop_bytes : forall fuel u, (length u < fuel)%nat ->
-  valid_utf8_loop fuel u = Ok true -> has_fffd u = false -> v5_share_loop fuel u = shb u.
+  valid_utf8_loop fuel u = Ok true -> v5_share_loop fuel u = shb u.
 Proof.
-  induction fuel; intros u Hlen H Hf; [lia|]. cbn [valid_utf8_loop v5_share_loop] in *.
+  induction fuel; intros u Hlen H; [lia|]. cbn [valid_utf8_loop v5_share_loop] in *.
   destruct u as [|c t] eqn:Eu; [reflexivity|]. rewrite <- Eu in *.
   assert (Hp : u <> []) by (subst; discriminate).
   destruct (rune_step u Hp) as [Hs Hl]. destruct (decode_rune_size u Hp) as [H1 _].
-  pose proof (rune_error_size1 u Hf) as Hre. pose proof (decode_rune_multi u) as Hm.
+  pose proof (decode_rune_multi u) as Hm.
   destruct (decode_rune u) as [ru size]. cbn [fst snd] in *.
   destruct (ru <=? 31); [discriminate|]. destruct ((127 <=? ru) && (ru <=? 159)); [discriminate|].
-  destruct (N.eqb_spec ru RUNE_ERROR) as [Er|Er].
-  { rewrite (Hre Er Hp) in H. cbn in H. discriminate. }
-  cbn [andb] in H. destruct (negb (valid_rune ru)); [discriminate|].
+  destruct ((ru =? RUNE_ERROR) && (size <=? 1)); [discriminate|].
+  destruct (negb (valid_rune ru)); [discriminate|].
   replace (size =? 0) with false in H by lia. rewrite Hs in *. cbn [bind] in H.
   replace (shb u) with (if c =? SLASH then valid_topic_filter_impl true t
                         else if (c =? PLUS) || (c =? HASH) then Ok false else shb t) by (rewrite Eu; reflexivity).
@@ -306,13 +301,13 @@ Proof.
     rewrite Hd in *. destruct (c =? SLASH).
     + rewrite ?Hs. cbn [bind]. reflexivity.
     + destruct ((c =? PLUS) || (c =? HASH)); [reflexivity|]. rewrite ?Hs. cbn [bind].
-      apply IHfuel; [lia|assumption|]. rewrite <- Hd. now apply has_fffd_dropN.
+      apply IHfuel; [lia|assumption].
   - assert (Hhigh : forallb (fun x => 128 <=? x) (takeN size u) = true) by (apply Hm; lia).
     assert (Hc : 128 <= c).
     { subst u. cbn [takeN] in Hhigh. replace (size =? 0) with false in Hhigh by lia. cbn [forallb] in Hhigh. lia. }
     unfold SLASH, PLUS, HASH. replace (c =? 47) with false by lia. replace (c =? 43) with false by lia.
     replace (c =? 35) with false by lia. cbn [orb bind].
-    rewrite IHfuel; [|lia|assumption|now apply has_fffd_dropN].
+    rewrite IHfuel; [|lia|assumption].
     assert (Hsplit : c :: t = takeN size u ++ dropN size u) by (rewrite take_drop; symmetry; exact Eu).
     assert (Hshb : shb (c :: t) = shb t).
     { cbn [shb]. unfold SLASH, PLUS, HASH. replace (c =? 47) with false by lia. replace (c =? 43) with false by lia.
@@ -354,23 +349,21 @@ Proof.
   eexists. reflexivity.
 Qed.
 
-(* ValidV5Topic on every string the decoder passes to it (ValidUTF8 accepted it), U+FFFD apart:
+(* ValidV5Topic on every string the decoder passes to it (ValidUTF8 accepted it):
    the verdict of the specification (4.7.1 filters, 4.8.2 shared subscriptions) *)
 Theorem v5_decoder_partial : forall s,
-  valid_utf8_impl s = Ok true -> kf_t_fffd s = false ->
-  valid_v5_topic_impl s = Ok (spec_v5_filter s).
+  valid_utf8_impl s = Ok true -> valid_v5_topic_impl s = Ok (spec_v5_filter s).
 Proof.
-  intros s Hu Hf. unfold valid_v5_topic_impl, spec_v5_filter.
+  intros s Hu. unfold valid_v5_topic_impl, spec_v5_filter.
   destruct s as [|s0 st] eqn:Es; [reflexivity|]. rewrite <- Es in *.
   destruct (has_prefix SHARE_PREFIX s) eqn:Hpre; [|now apply filter_decoder_partial].
-  destruct (share_prefix_inv s Hpre) as [u Hs]. unfold kf_t_fffd in Hf.
+  destruct (share_prefix_inv s Hpre) as [u Hs].
   assert (HG : G s = true) by (rewrite G_utf8 in Hu; congruence).
   assert (HGu : G u = true).
   { rewrite Hs in HG. change (SHARE_PREFIX ++ u) with ([36; 115; 104; 97; 114; 101] ++ 47 :: u) in HG.
     apply (G_split 6) in HG; [|cbn; lia|lia]. destruct HG as [_ HG]. rewrite G_1 in HG by lia.
     apply andb_prop in HG. tauto. }
   assert (Hd7 : dropN 7 s = u) by (rewrite Hs; apply (dropN_app_exact SHARE_PREFIX u)).
-  assert (Hfu : has_fffd u = false) by (rewrite <- Hd7; now apply has_fffd_dropN).
   assert (Hlen : len s = 7 + len u) by (rewrite Hs, len_app; reflexivity).
   unfold spec_shared_filter. replace (skipn 7 s) with u by (rewrite Hs; reflexivity).
   rewrite shorter_spec. destruct (N.ltb_spec (len s) 9) as [Hshort|Hlong].
@@ -382,7 +375,7 @@ Proof.
   destruct (N.eqb_spec x SLASH) as [->|Hx]; cbn [negb].
   { rewrite Eu, cut_slash_cons. reflexivity. }
   rewrite slice_from_ok by lia. rewrite Hd7. cbn [bind].
-  rewrite share_loop_bytes; [|lia| |assumption].
+  rewrite share_loop_bytes; [|lia|].
   2:{ rewrite valid_utf8_loop_G by lia. now rewrite HGu. }
   rewrite shb_cut. destruct (cut_slash u) as [g [flt|]] eqn:Ecut; [|reflexivity].
   assert (Hgne : is_empty g = false).
@@ -395,10 +388,5 @@ Proof.
   apply andb_prop in HGf. destruct HGf as [_ HGf].
   rewrite (G_spec_utf8 g HGg), andb_true_r.
   destruct (has_wild g); [reflexivity|]. cbn [negb andb].
-  apply filter_decoder_partial; [rewrite G_utf8, HGf; reflexivity|].
-  unfold kf_t_fffd. replace flt with (dropN (len g + 1) u).
-  - now apply has_fffd_dropN.
-  - rewrite Hug. replace (len g + 1) with (len (g ++ [SLASH])) by (rewrite len_app; reflexivity).
-    replace (g ++ SLASH :: flt) with ((g ++ [SLASH]) ++ flt) by (rewrite <- app_assoc; reflexivity).
-    apply dropN_app_exact.
+  apply filter_decoder_partial. rewrite G_utf8, HGf. reflexivity.
 Qed.
